@@ -1,0 +1,88 @@
+//go:build verif
+
+package autodiff
+
+// Contracts for the deductive verification in /verif (comment-only file, build tag verif).
+// Syntax: /verif/DESIGN.md Appendix A. Checked by /verif/bin/govc.
+
+// ---------------------------------------------------------------------------
+// dense matrices: view algebra (C10) and loud failure (C20)
+
+//@ props C10 C20
+
+//@ for $M,$S,$E,$V in (DenseFloat64Matrix,Float64,float64,DenseFloat64Vector)
+//@ spec WF_$M(m *$M) bool =
+//@   m != nil && 0 <= m.rows && 0 <= m.cols && 0 <= m.rowOffset && 0 <= m.colOffset &&
+//@   m.rowOffset + m.rows <= m.rowMax && m.colOffset + m.cols <= m.colMax &&
+//@   len(m.values) == m.rowMax * m.colMax
+//@ spec addr_$M(m *$M, i int, j int) int =
+//@   ite(m.transposed, (m.colOffset + j)*m.rowMax + (m.rowOffset + i), (m.rowOffset + i)*m.colMax + (m.colOffset + j))
+//@ spec inview_$M(m *$M, i int, j int) bool = 0 <= i && i < m.rows && 0 <= j && j < m.cols
+//@ spec elem_$M(m *$M, i int, j int) real = m.values[addr_$M(m, i, j)]
+
+//@ lemma addr_inrange_$M: forall m *$M, i int, j int :: WF_$M(m) && inview_$M(m, i, j) ==> 0 <= addr_$M(m, i, j) && addr_$M(m, i, j) < len(m.values)
+//@ lemma addr_injective_$M: forall m *$M, i int, j int, k int, l int :: WF_$M(m) && inview_$M(m, i, j) && inview_$M(m, k, l) && addr_$M(m, i, j) == addr_$M(m, k, l) ==> i == k && j == l
+
+//@ func (*$M).index
+//@   requires WF_$M(matrix)
+//@   panics_when i < 0 || j < 0 || i >= matrix.rows || j >= matrix.cols
+//@   ensures result == addr_$M(matrix, i, j)
+//@   ensures 0 <= result && result < len(matrix.values)
+//@   pure
+
+//@ spec slice_post_$M(m *$M, r *$M, rfrom int, rto int, cfrom int, cto int) bool =
+//@   WF_$M(r) && r.rows == rto - rfrom && r.cols == cto - cfrom && r.values == m.values && r.transposed == m.transposed &&
+//@   (forall i int, j int :: inview_$M(r, i, j) ==> inview_$M(m, rfrom + i, cfrom + j) && addr_$M(r, i, j) == addr_$M(m, rfrom + i, cfrom + j))
+//@ func (*$M).SLICE [also: (*$M).ConstSlice, (*$M).Slice]
+//@   requires WF_$M(matrix)
+//@   panics_when !(0 <= rfrom && rfrom <= rto && rto <= matrix.rows && 0 <= cfrom && cfrom <= cto && cto <= matrix.cols)
+//@   ensures isa(*$M, result) && fresh(as(*$M, result))
+//@   ensures slice_post_$M(matrix, as(*$M, result), rfrom, rto, cfrom, cto)
+//@   modifies nothing
+
+//@ spec t_post_$M(m *$M, r *$M) bool =
+//@   WF_$M(r) && r.rows == m.cols && r.cols == m.rows && r.values == m.values &&
+//@   (forall i int, j int :: inview_$M(r, i, j) ==> inview_$M(m, j, i) && addr_$M(r, i, j) == addr_$M(m, j, i))
+//@ func (*$M).T
+//@   requires WF_$M(matrix)
+//@   ensures isa(*$M, result) && fresh(as(*$M, result))
+//@   ensures t_post_$M(matrix, as(*$M, result))
+//@   modifies nothing
+
+//@ func (*$M).AT [also: (*$M).ConstAt, (*$M).At]
+//@   requires WF_$M(matrix)
+//@   panics_when !inview_$M(matrix, i, j)
+//@   ensures isa($S, result)
+//@   ensures base(as($S, result).ptr) == base(matrix.values) && off(as($S, result).ptr) == off(matrix.values) + addr_$M(matrix, i, j)
+//@   modifies nothing
+
+//@ func (*$M).Float64At
+//@   requires WF_$M(matrix)
+//@   panics_when !inview_$M(matrix, i, j)
+//@   ensures result == elem_$M(matrix, i, j)
+//@   pure
+
+//@ func (*$M).Dims
+//@   requires matrix != nil
+//@   ensures result0 == matrix.rows && result1 == matrix.cols
+//@   pure
+
+//@ func (*$M).Swap
+//@   requires WF_$M(matrix)
+//@   panics_when !inview_$M(matrix, i1, j1) || !inview_$M(matrix, i2, j2)
+//@   ensures elem_$M(matrix, i1, j1) == old(elem_$M(matrix, i2, j2)) && elem_$M(matrix, i2, j2) == old(elem_$M(matrix, i1, j1))
+//@   ensures forall k int :: k != addr_$M(matrix, i1, j1) && k != addr_$M(matrix, i2, j2) ==> matrix.values[k] == old(matrix.values[k])
+//@   modifies []$E@{matrix.values}
+
+//@ func (*$M).ROW [also: (*$M).Row]
+//@   requires WF_$M(matrix)
+//@   panics_when matrix.cols > 0 && (i < 0 || i >= matrix.rows)
+//@   ensures isa($V, result) && fresh(as($V, result)) && len(as($V, result)) == matrix.cols
+//@   ensures forall j int :: 0 <= j && j < matrix.cols ==> as($V, result)[j] == elem_$M(matrix, i, j)
+//@   modifies nothing
+//@   loop 1 invariant 0 <= j && j <= matrix.cols && fresh(v) && len(v) == matrix.cols && off(v) == 0
+//@   loop 1 invariant j > 0 ==> 0 <= i && i < matrix.rows
+//@   loop 1 invariant forall k int :: 0 <= k && k < j ==> v[k] == elem_$M(matrix, i, k)
+//@   loop 1 invariant forall b int, k int :: b != base(v) ==> row($E, b)[k] == old(row($E, b)[k])
+//@   loop 1 decreases matrix.cols - j
+//@ end
